@@ -61,6 +61,13 @@ class H(bf.Family):
                 for inst in ('i1', 'i2') if self.tier != 'quick' else ('i1',):
                     if st[inst] != 'active' or v.job_cancelled(j):
                         out.append(('schedule', j['job_id'], f"L{j['job_id']}", inst))
+        # the scheduler POSTed job j to i1, the worker accepted, but the driver timed out (2 s) and never called schedule_job: the
+        # job stays Ready (and may run elsewhere meanwhile) and the worker's job_started for that attempt arrives at any later time
+        if st['i1'] == 'active':
+            for j in v.jobs[: 1 if self.tier == 'quick' else 2]:
+                g = f"G{j['job_id']}"
+                if j['state'] != 'Pending' and j['update_id'] in v.committed and g not in existing:
+                    out.append(('started', j['job_id'], g, 'i1', 10))
         for which in ('ready', 'running', 'orphans'):
             out.append(('canceller', which))
         for g in v.groups:
@@ -83,9 +90,14 @@ class H(bf.Family):
 
     def check_transition(self, w, pre, label, obs):
         out = super().check_transition(w, pre, label, obs)
+        live = {(a['job_id'], a['attempt_id']) for a in w.table('attempts') if a['end_time'] is None}
         for e in self._events:
             if e['s0'] in ('Running', 'Creating') and e['s1'] in ('Running', 'Creating') and e['att0'] is not None and e['att0'] != e['att1']:
                 out.append(('current-attempt-replaced-while-running', f"job {e['job']} attempt {e['att0']} -> {e['att1']} during {label}"))
+            if e['s0'] in ('Running', 'Creating') and e['s1'] == 'Ready' and e['att0'] is not None and (e['job'], e['att0']) in live:
+                # back to Ready means "will be scheduled again": its current attempt must have been ended by the same operation
+                out.append(('job-made-ready-while-its-current-attempt-still-runs',
+                            f"job {e['job']} {e['s0']}->Ready during {label} but attempt {e['att0']} has no end time: a second attempt will run next to it"))
         return out
 
     def canon(self, w):
@@ -111,7 +123,7 @@ def done(hist_state):
 def check(tier, seed, procs):
     import networkx as nx
 
-    res = dbmc.bfs(H, (tier,), depth=60, procs=procs, time_budget=240 if tier == 'quick' else 1500, keep_graph=True)
+    res = dbmc.bfs(H, (tier,), depth=60, procs=procs, time_budget=240 if tier == 'quick' else 900, keep_graph=True)
     viol = list(res.violations)
     cov_extra = {'liveness_judged': bool(res.fixpoint)}
     if res.fixpoint:
